@@ -68,6 +68,10 @@ def build(cmd, variant):
         modflag = ["-modfile=" + os.path.join(bdir, "alt.mod")]
     out = os.path.join(bdir, f"{cmd}_{variant}")
     os.makedirs(BUILD, exist_ok=True)
+    if os.environ.get("VERIF_COVER"):
+        # statement coverage of the library under the monitors' workloads (tools/coverage.sh); not used by registered checks
+        out += "_cover"
+        flags = flags + ["-cover", f"-coverpkg=github.com/mlange-42/ark/ecs/...,verifharness/cmd/{cmd}"]  # the main package must be in the list, else nothing is written
     args = [GO, "build"] + modflag + ["-o", out] + flags
     if tags:
         args += ["-tags", tags]
@@ -90,6 +94,8 @@ def run_job(job, outdir, idx):
     if job["variant"] == "race":
         # explore: do not stop at the first report, write reports to files (exit codes are not trusted)
         env["GORACE"] = f"halt_on_error=0 log_path={outdir}/race{idx}"
+    if os.environ.get("VERIF_COVER"):
+        env["GOCOVERDIR"] = os.environ["VERIF_COVER"]
     wd = job.get("watchdog", 1500)
     cmd = ["timeout", "-s", "QUIT", "-k", "20", str(wd)] + args
     with open(log, "w") as lf:
